@@ -4,9 +4,9 @@ package c16
 
 import (
 	"context"
-	"reflect"
 	"errors"
 	"fmt"
+	"reflect"
 	"sort"
 	"strings"
 	"testing"
@@ -129,12 +129,36 @@ type Row struct {
 	Age     int
 	Note    string
 	Deleted bool
+	// Nulls: bit 0 name, bit 1 age, bit 2 note hold NULL (a map insert that leaves the column out);
+	// a record read back shows the zero value for them, a condition never matches them
+	Nulls uint8
+}
+
+const (
+	nullName = 1 << iota
+	nullAge
+	nullNote
+)
+
+func nullBit(col string) uint8 {
+	switch col {
+	case "name":
+		return nullName
+	case "age":
+		return nullAge
+	case "note":
+		return nullNote
+	}
+	return 0
 }
 
 func (r Row) String() string {
 	d := ""
 	if r.Deleted {
 		d = " DELETED"
+	}
+	if r.Nulls != 0 {
+		d += fmt.Sprintf(" NULLS:%03b", r.Nulls)
 	}
 	return fmt.Sprintf("{%d %q %q %d %q%s}", r.ID, r.Code, r.Name, r.Age, r.Note, d)
 }
@@ -208,6 +232,11 @@ type Op struct {
 	// upsert
 	Rule   string   // nothing | nothing-id | updates-id | updates-code | updateall
 	Subset []string // columns of DoUpdates
+	// MapCols != nil: the proposed row is given as map[string]interface{} through Model(&T{}) and
+	// carries only the key (when non-zero), the unique column and these columns
+	MapCols []string
+	// first-or-*: the chain starts with Unscoped() (soft-deleted rows are matched, and written)
+	Unscoped bool
 	// first-or-*
 	CondForm string // struct | map | inline-struct | inline-map
 	Conds    []Attr // one or two equality conditions (never the primary key)
@@ -231,9 +260,16 @@ func (o Op) String() string {
 	case "save":
 		return fmt.Sprintf("Save(%+v)", o.V)
 	case "upsert":
+		if o.MapCols != nil {
+			return fmt.Sprintf("Model(&T{}).Create(map of %+v with columns id,code,%v) OnConflict{%s %v}", o.V, o.MapCols, o.Rule, o.Subset)
+		}
 		return fmt.Sprintf("Create(%+v) OnConflict{%s %v}", o.V, o.Rule, o.Subset)
 	}
-	s := o.Kind + " conds[" + o.CondForm + "]="
+	s := o.Kind
+	if o.Unscoped {
+		s += " Unscoped"
+	}
+	s += " conds[" + o.CondForm + "]="
 	for _, c := range o.Conds {
 		s += c.String() + ","
 	}
@@ -317,9 +353,15 @@ func chainLen(o Op) int {
 	case "save":
 		return 0
 	case "upsert":
+		if o.MapCols != nil {
+			return 2
+		}
 		return 1
 	}
 	n := 0
+	if o.Unscoped {
+		n++
+	}
 	if !strings.HasPrefix(o.CondForm, "inline") {
 		n++
 	}
@@ -358,12 +400,37 @@ func run(d *testdb.DB, kind int, o Op, v variant) Outcome {
 		case "updateall-code":
 			oc = clause.OnConflict{Columns: []clause.Column{{Name: "code"}}, UpdateAll: true}
 		}
+		if o.MapCols != nil {
+			mv := map[string]interface{}{"code": o.V.Code}
+			if o.V.ID != 0 {
+				mv["id"] = o.V.ID
+			}
+			for _, c := range o.MapCols {
+				switch c {
+				case "name":
+					mv["name"] = o.V.Name
+				case "age":
+					mv["age"] = o.V.Age
+				case "note":
+					mv["note"] = o.V.Note
+				}
+			}
+			tx := v.apply(db, 0).Model(newRec(kind).Interface())
+			tx = v.apply(tx, 1).Clauses(oc)
+			tx = v.apply(tx, 2)
+			res = tx.Create(mv)
+			break
+		}
 		tx := v.apply(db, 0).Clauses(oc)
 		tx = v.apply(tx, 1)
 		res = tx.Create(recOf(kind, o.V).Interface())
 	default:
 		tx := db
 		at := 0
+		if o.Unscoped {
+			tx = v.apply(tx, at).Unscoped()
+			at++
+		}
 		var inline []interface{}
 		cv := condValue(o.Conds, o.CondForm, kind)
 		if strings.HasPrefix(o.CondForm, "inline") {
@@ -416,6 +483,28 @@ func expect(m *Model, o Op) (exp Outcome) {
 		return Outcome{Out: r, OutValid: true, RowsAffected: 1, RAValid: true}
 	case "upsert":
 		v := o.V
+		supplied := func(c string) bool {
+			if o.MapCols == nil {
+				return true
+			}
+			for _, x := range o.MapCols {
+				if x == c {
+					return true
+				}
+			}
+			return false
+		}
+		// a column the map does not carry is not part of the INSERT: the proposed row has no value for it
+		var vNulls uint8
+		if !supplied("name") {
+			v.Name, vNulls = "", vNulls|nullName
+		}
+		if !supplied("age") {
+			v.Age, vNulls = 0, vNulls|nullAge
+		}
+		if !supplied("note") {
+			v.Note, vNulls = "", vNulls|nullNote
+		}
 		var byID *Row
 		if v.ID != 0 {
 			if r, ok := m.Rows[v.ID]; ok {
@@ -424,7 +513,7 @@ func expect(m *Model, o Op) (exp Outcome) {
 		}
 		byCode := m.byCode(v.Code)
 		if byID == nil && byCode == nil {
-			r := Row{ID: v.ID, Code: v.Code, Name: v.Name, Age: v.Age, Note: v.Note}
+			r := Row{ID: v.ID, Code: v.Code, Name: v.Name, Age: v.Age, Note: v.Note, Nulls: vNulls}
 			if v.ID == 0 {
 				return Outcome{AutoID: true, Out: r, RowsAffected: 1, RAValid: true}
 			}
@@ -460,22 +549,38 @@ func expect(m *Model, o Op) (exp Outcome) {
 				case "note":
 					t.Note = v.Note
 				}
+				t.Nulls = t.Nulls&^nullBit(c) | vNulls&nullBit(c) // excluded.col is NULL when the map left it out
 			}
 		case "updateall", "updateall-code":
 			// every column except the primary key takes the proposed value (deleted_at included);
 			// the row that was hit keeps its key, whatever the conflict target is
-			t.Code, t.Name, t.Age, t.Note = v.Code, v.Name, v.Age, v.Note
-			t.Deleted = false
+			// - of the columns the proposed row carries: a map that leaves columns out leaves them alone
+			t.Code = v.Code
+			if supplied("name") {
+				t.Name, t.Nulls = v.Name, t.Nulls&^nullName
+			}
+			if supplied("age") {
+				t.Age, t.Nulls = v.Age, t.Nulls&^nullAge
+			}
+			if supplied("note") {
+				t.Note, t.Nulls = v.Note, t.Nulls&^nullNote
+			}
+			if o.MapCols == nil {
+				t.Deleted = false
+			}
 		}
 		m.put(t)
 		return Outcome{RowsAffected: 1, RAValid: true}
 	}
 	// first-or-*
 	match := func(r Row) bool {
-		if r.Deleted {
+		if r.Deleted && !o.Unscoped {
 			return false
 		}
 		for _, c := range o.Conds {
+			if r.Nulls&nullBit(c.Col) != 0 {
+				return false // NULL equals nothing
+			}
 			switch c.Col {
 			case "name":
 				if r.Name != c.S {
@@ -502,6 +607,7 @@ func expect(m *Model, o Op) (exp Outcome) {
 		return true
 	}
 	set := func(r *Row, a Attr) {
+		r.Nulls &^= nullBit(a.Col)
 		switch a.Col {
 		case "name":
 			r.Name = a.S
@@ -572,6 +678,7 @@ func openDB(kind int, m *Model) *testdb.DB {
 	var seed []dbRow
 	for _, r := range m.sorted() {
 		x := dbRow{ID: r.ID, Code: r.Code, Name: r.Name, Age: r.Age, Note: r.Note,
+			NameNull: r.Nulls&nullName != 0, AgeNull: r.Nulls&nullAge != 0, NoteNull: r.Nulls&nullNote != 0,
 			CreatedAt: testdb.FixedNow.Add(-2 * time.Hour), UpdatedAt: testdb.FixedNow.Add(-2 * time.Hour)}
 		if r.Deleted {
 			del := testdb.FixedNow.Add(-time.Hour)
@@ -609,16 +716,33 @@ func openSeeded(kind int, seed []dbRow, maxEver uint) *testdb.DB {
 	}
 	for _, r := range seed {
 		var e error
+		var name, age, note interface{} = r.Name, r.Age, r.Note
+		if r.NameNull {
+			name = nil
+		}
+		if r.AgeNull {
+			age = nil
+		}
+		if r.NoteNull {
+			note = nil
+		}
+		var created, updated interface{} = r.CreatedAt, r.UpdatedAt
+		if r.CreatedNull {
+			created = nil
+		}
+		if r.UpdatedNull {
+			updated = nil
+		}
 		if soft {
 			var del interface{}
 			if r.DeletedAt != nil {
 				del = *r.DeletedAt
 			}
 			e = d.Exec("INSERT INTO recs (id, code, name, age, note, created_at, updated_at, deleted_at) VALUES (?,?,?,?,?,?,?,?)",
-				r.ID, r.Code, r.Name, r.Age, r.Note, r.CreatedAt, r.UpdatedAt, del).Error
+				r.ID, r.Code, name, age, note, created, updated, del).Error
 		} else {
 			e = d.Exec("INSERT INTO recs (id, code, name, age, note, created_at, updated_at) VALUES (?,?,?,?,?,?,?)",
-				r.ID, r.Code, r.Name, r.Age, r.Note, r.CreatedAt, r.UpdatedAt).Error
+				r.ID, r.Code, name, age, note, created, updated).Error
 		}
 		if e != nil {
 			panic("harness: seed: " + e.Error())
@@ -657,6 +781,8 @@ type dbRow struct {
 	CreatedAt time.Time
 	UpdatedAt time.Time
 	DeletedAt *time.Time
+	// NULL flags (computed columns of the dump query)
+	NameNull, AgeNull, NoteNull, CreatedNull, UpdatedNull bool
 }
 
 func dump(d *testdb.DB, kind int) ([]Row, string) {
@@ -667,9 +793,10 @@ func dump(d *testdb.DB, kind int) ([]Row, string) {
 func dumpRaw(d *testdb.DB, kind int) ([]Row, string, []dbRow) {
 	soft := kind == kSoft
 	var rows []dbRow
-	q := "SELECT id, code, name, age, note, created_at, updated_at FROM recs ORDER BY id"
+	const nulls = ", name IS NULL AS name_null, age IS NULL AS age_null, note IS NULL AS note_null, created_at IS NULL AS created_null, updated_at IS NULL AS updated_null"
+	q := "SELECT id, code, name, age, note, created_at, updated_at" + nulls + " FROM recs ORDER BY id"
 	if soft {
-		q = "SELECT id, code, name, age, note, created_at, updated_at, deleted_at FROM recs ORDER BY id"
+		q = "SELECT id, code, name, age, note, created_at, updated_at, deleted_at" + nulls + " FROM recs ORDER BY id"
 	}
 	d.Rec.Pause()
 	err := d.Raw(q).Scan(&rows).Error
@@ -681,7 +808,16 @@ func dumpRaw(d *testdb.DB, kind int) ([]Row, string, []dbRow) {
 	var full strings.Builder
 	for i, r := range rows {
 		out[i] = Row{ID: r.ID, Code: r.Code, Name: r.Name, Age: r.Age, Note: r.Note, Deleted: r.DeletedAt != nil}
-		fmt.Fprintf(&full, "%v|%s|%s|%v;", out[i], r.CreatedAt.UTC().Format(time.RFC3339Nano), r.UpdatedAt.UTC().Format(time.RFC3339Nano), r.DeletedAt)
+		if r.NameNull {
+			out[i].Nulls |= nullName
+		}
+		if r.AgeNull {
+			out[i].Nulls |= nullAge
+		}
+		if r.NoteNull {
+			out[i].Nulls |= nullNote
+		}
+		fmt.Fprintf(&full, "%v|%s|%s|%v|%v%v;", out[i], r.CreatedAt.UTC().Format(time.RFC3339Nano), r.UpdatedAt.UTC().Format(time.RFC3339Nano), r.DeletedAt, r.CreatedNull, r.UpdatedNull)
 	}
 	return out, full.String(), rows
 }
@@ -766,6 +902,15 @@ func genOp(t *rapid.T, m *Model) Op {
 				}
 			}
 		}
+		if rapid.IntRange(0, 3).Draw(t, "asmap") == 0 {
+			o.MapCols = []string{}
+			mask := rapid.IntRange(0, 7).Draw(t, "mapcols")
+			for i, c := range []string{"name", "age", "note"} {
+				if mask&(1<<i) != 0 {
+					o.MapCols = append(o.MapCols, c)
+				}
+			}
+		}
 		// domain: a proposed row that conflicts with two different rows (one by key, one by
 		// the unique column) is decided by the database's constraint-check order, not by
 		// the conflict rule - redraw the code so at most one row conflicts
@@ -778,6 +923,9 @@ func genOp(t *rapid.T, m *Model) Op {
 		}
 	default:
 		o.CondForm = rapid.SampledFrom([]string{"struct", "map", "inline-struct", "inline-map"}).Draw(t, "condform")
+		if m.Kind == kSoft {
+			o.Unscoped = rapid.IntRange(0, 2).Draw(t, "unscoped") == 0
+		}
 		n := rapid.IntRange(1, 2).Draw(t, "nconds")
 		cols := []string{"name", "age", "note"}
 		first := rapid.IntRange(0, 2).Draw(t, "cond0")
@@ -874,6 +1022,12 @@ func TestC16(t *testing.T) {
 			classes["op:"+o.Kind] = true
 			if o.Kind == "upsert" {
 				classes["rule:"+o.Rule] = true
+				if o.MapCols != nil {
+					classes["upsert:map-value"] = true
+					if len(o.MapCols) < 3 {
+						classes["upsert:map-column-subset"] = true
+					}
+				}
 			}
 			pre := m.clone()
 			exp := expect(m, o)
@@ -900,6 +1054,9 @@ func TestC16(t *testing.T) {
 				if _, ok := pre.Rows[exp.Out.ID]; ok && exp.Out.ID != 0 {
 					collision = true
 					classes["first-or:found"] = true
+					if pre.Rows[exp.Out.ID].Deleted {
+						classes["first-or:found-soft-deleted(unscoped)"] = true
+					}
 				} else {
 					classes["first-or:not-found"] = true
 				}
@@ -950,6 +1107,7 @@ func TestC16(t *testing.T) {
 				fail("table contents differ from the reference model")
 			}
 			if !exp.Err {
+				exp.Out.Nulls = 0 // a NULL column reads back as the zero value
 				if exp.OutValid && got.OutValid && exp.Out != got.Out {
 					fail("returned record %v, want %v", got.Out, exp.Out)
 				}
